@@ -347,6 +347,10 @@ def evalop(op, w, a, store=None):
         cells, ew = store.tabs[a[0]]
         i = a[1]
         return cells[i] if i < len(cells) else 0
+    if op == 'i2f' or op == 'u2f':
+        import struct
+        v = sgn(a[0], a[1]) if op == 'i2f' else a[0]
+        return struct.unpack('<Q', struct.pack('<d', float(v)))[0]
     if op == 'mulhi':  # high 64 bits of unsigned 64x64 product
         return (a[0] * a[1]) >> w
     if op == 'clz':
